@@ -62,4 +62,21 @@ Place(d, ins) ==
     [] a.k = "kw"   -> [at |-> a.lo, id |-> 0]
     [] OTHER        -> IF a.v \in ValidIds(d) THEN [at |-> "after", id |-> a.v]
                        ELSE [at |-> "bottom", id |-> 0]
+
+(***************************************************************************)
+(* Insertion ids.  When every live insertion dict carries an id, ids are   *)
+(* as given.  Otherwise an insertion without id is numbered                *)
+(*   - defined on the variable (view): by its 1-based rank in payload      *)
+(*     display order (the order the subtotals appear in when the base      *)
+(*     elements are in payload order and nothing is hidden);               *)
+(*   - defined in the analysis transforms: by its 1-based definition       *)
+(*     position among the live insertions.                                 *)
+(* `rank` is the sequence of live-subtotal indexes in payload display      *)
+(* order (computed by Collate).                                            *)
+(***************************************************************************)
+AllHaveIds(L) == \A s \in 1..Len(L) : L[s].id # 0
+RankIn(rank, s) == CHOOSE r \in 1..Len(rank) : rank[r] = s
+InsIdOf(L, fromView, rank, s) ==
+  IF L[s].id # 0 THEN L[s].id
+  ELSE IF fromView THEN RankIn(rank, s) ELSE s
 =============================================================================
